@@ -12,12 +12,17 @@ Not decidable statically: equality with the exact Markov chain (numerical).  Dec
   * omega-family provenance: generatematrices passes (omK_jn, omK_jt[, omega2=True iff K=2]) coherently, and every
     contraction np.dot(A, B) / element-wise product in Lij combines an expansion and a rate vector of the same
     omega family (family = provenance of the array's last axis, not its name);
-  * mirror blocks: the omega1 and omega2 loops of makeLIMBpreene / maketracerpreene each stay within one family.
+  * mirror blocks: the omega1 and omega2 loops of makeLIMBpreene / maketracerpreene each stay within one family;
+  * index families (engine axes): every subscript, comparison, zip, element-wise operation and np.dot contraction in
+    __init__ / generate / generatematrices / makeLIMBpreene / maketracerpreene / _symmetricandescaperates / Lij and in the
+    VectorStarSet expansions combines indices and axes of the same family (site, Wyckoff set, thermodynamic star,
+    kinetic star, vector star, omega0/1/2 jump, state, Cartesian), and every index map (thermo2kin, kin2vacancy,
+    vstar2kin, kin2vstar, kineticsvWyckoff, omK_jt, omK_SP ...) is built with the families the frozen table records.
 """
 import ast
 
 from ..model import AnalysisError, dotted, unparse, walk_local
-from ..engines import exchange, families
+from ..engines import exchange, families, shape
 from ..engines.linform import swap_sigma, rename, canon
 
 
@@ -38,6 +43,16 @@ def run(model, rep, tier):
     _symmprob(model, rep, mod, ci)
     _plumbing(model, rep, mod, ci)
     _families(model, rep, mod, ci)
+    _axes_rule(model, rep)
+
+
+# ---------------------------------------------------------------- index families
+def _axes_rule(model, rep):
+    from . import _axes, _axes_schema as S
+    methods = S.VM_METHODS + [m for m in S.STAR_METHODS if m[1] == 'VectorStarSet' and m[2] != 'generate']
+    eng, interps, per = _axes.run_axes(model, rep, methods, 'index-family obligations (vacancy-mediated pipeline)', 170)
+    n = _axes.check_returned_dict(rep, model, interps[('VacancyMediated', 'makeLIMBpreene')], 'OnsagerCalc', S.PREENE_KEYS, 'makeLIMBpreene')
+    rep.floor('makeLIMBpreene returned arrays typed', n, 4)
 
 
 # ---------------------------------------------------------------- rate construction
@@ -120,13 +135,9 @@ def _limb(model, rep, mod, ci):
         if not fams:
             continue
         sp = None
-        if isinstance(lp.target, ast.Tuple):
-            names = [e.id for e in lp.target.elts if isinstance(e, ast.Name)]
-            # the star-pair variable: the target bound from the *_SP iterable
-            its = lp.iter.args if isinstance(lp.iter, ast.Call) else []
-            for tname, src in zip([unparse(e) for e in lp.target.elts], [unparse(a) for a in its]):
-                if src in families.PAIRS:
-                    sp = tname
+        for tnode, src in shape.bindings(lp.target, lp.iter):
+            if not isinstance(src, shape.Pos) and unparse(src) in families.PAIRS and isinstance(tnode, ast.Name):
+                sp = tnode.id
         if sp is None:
             raise AnalysisError('makeLIMBpreene: star-pair variable not found in %s' % it)
         sigma = swap_sigma([('%s[0]' % sp, '%s[1]' % sp)])
@@ -183,18 +194,19 @@ def _symmprob(model, rep, mod, ci):
     if fn is None:
         raise AnalysisError('anchor vanished: VacancyMediated.Lij')
     n = 0
-    for st in walk_local(fn):
-        if isinstance(st, ast.Assign) and isinstance(st.value, ast.Call) and (dotted(st.value.func) or '').endswith('array') \
-                and st.value.args and isinstance(st.value.args[0], ast.ListComp):
-            lc = st.value.args[0]
-            g = lc.generators[0]
-            if unparse(g.iter) in families.PAIRS and isinstance(g.target, ast.Tuple) and len(g.target.elts) == 2:
-                a, b = [unparse(e) for e in g.target.elts]
-                ok, x, y = exchange.symmetric_expr(lc.elt, swap_sigma([(a, b)]))
-                n += 1
-                rep.ob('exchange-symmetric', mod, st, '%s element %s under %s<->%s' % (unparse(st.targets[0]), unparse(lc.elt), a, b),
-                       ok, '' if ok else 'symmetrised probability depends on the direction of the jump', engine='exchange',
-                       qual='VacancyMediated.Lij')
+    # every comprehension over a star-pair / Wyckoff-pair list that unpacks the two endpoints
+    for lc in walk_local(fn):
+        if not isinstance(lc, (ast.ListComp, ast.GeneratorExp)) or len(lc.generators) != 1:
+            continue
+        g = lc.generators[0]
+        if unparse(g.iter) in families.PAIRS and isinstance(g.target, ast.Tuple) and len(g.target.elts) == 2 \
+                and all(isinstance(e, ast.Name) for e in g.target.elts):
+            a, b = [e.id for e in g.target.elts]
+            ok, x, y = exchange.symmetric_expr(lc.elt, swap_sigma([(a, b)]))
+            n += 1
+            rep.ob('exchange-symmetric', mod, lc, 'element %s over %s under %s<->%s' % (unparse(lc.elt), unparse(g.iter), a, b),
+                   ok, '' if ok else 'symmetrised probability depends on the direction of the jump', engine='exchange',
+                   qual='VacancyMediated.Lij')
     rep.floor('symmetrised probability vectors in Lij', n, 3)
 
 
@@ -236,19 +248,21 @@ def _plumbing(model, rep, mod, ci):
     ret = [n for n in walk_local(p2b) if isinstance(n, ast.Return)]
     if len(ret) != 1 or not isinstance(ret[0].value, ast.Tuple):
         raise AnalysisError('preene2betafree: tuple return not found')
-    rnames = [unparse(e) for e in ret[0].value.elts]
-    lpos = [a.arg for a in lij.args.args[1:1 + len(rnames)]]
-    ok = rnames == lpos
-    rep.ob('plumbing', mod, ret[0], 'preene2betafree returns %s ; Lij takes %s' % (rnames, lpos), ok,
-           '' if ok else 'Lij(*preene2betafree(...)) binds arrays to the wrong parameters', engine='tables')
-    # each returned bF* is computed from the matching ene*/pre*:  bFX = beta * eneX - np.log(preX)
-    for n in walk_local(p2b):
-        if isinstance(n, ast.Assign) and isinstance(n.targets[0], ast.Name) and n.targets[0].id in rnames:
-            x = n.targets[0].id[2:]  # V, S, SV, T0, T1, T2
-            names = exchange.names_in(n.value)
-            okx = {'ene' + x, 'pre' + x} <= names and not {p for p in names if p.startswith(('ene', 'pre'))} - {'ene' + x, 'pre' + x}
-            rep.ob('plumbing', mod, n, unparse(n), okx, '' if okx else 'free energy %s is built from another species\' data' % n.targets[0].id,
-                   engine='tables')
+    lpos = [a.arg for a in lij.args.args[1:1 + len(ret[0].value.elts)]]
+    # each returned free energy is computed from the energies / prefactors of the species Lij expects at that position
+    # (data dependence on the parameters eneX / preX; temporaries and statement order do not matter)
+    deps = shape.param_deps(p2b)
+    for e, lp in zip(ret[0].value.elts, lpos):
+        x = lp[2:] if lp.startswith('bF') else lp   # V, S, SV, T0, T1, T2
+        d = {q for q in deps(e) if q.startswith(('ene', 'pre'))}
+        own = {'ene' + x, 'pre' + x}
+        # transition states and the solute are referenced to the vacancy (and solute) minimum: those inputs are allowed
+        allowed = own | {'eneV', 'preV'} | ({'eneS', 'preS'} if x in ('T1', 'T2') else set())
+        okx = own <= d and d <= allowed
+        rep.ob('plumbing', mod, e, 'preene2betafree return position for Lij(%s): %s built from %s' % (lp, unparse(e)[:60], sorted(d)), okx,
+               '' if okx else 'Lij(*preene2betafree(...)) binds to %s a free energy built from %s' % (lp, sorted(d)), engine='tables',
+               qual='VacancyMediated.preene2betafree')
+    rep.floor('preene2betafree returned free energies', len(lpos), 6)
     # _symmetricandescaperates: return order vs unpack order in Lij; args vs params
     fams, order, retn = families.vector_families(model)
     call = None
